@@ -3,7 +3,8 @@ tbot classes and print the observation line in the syntax of the Lean model.
 
 The machine class of a case is composed dynamically (`type(name, bases, ns)`) from instrumented
 mixins that subclass the real `machine.PreConnectInitializer`, `machine.Initializer`,
-`machine.PostShellInitializer`, `board.PowerControl`, `connector.Connector` and `shell.Shell`.
+`machine.PostShellInitializer`, `board.PowerControl`, `connector.Connector` (or the real
+`connector.ConsoleConnector` over a stub lab-host when the case has an `l` token) and `shell.Shell`.
 Nothing in tbot is patched: every event is logged by the mixins' own callbacks, the exception that
 reaches the caller is identified by object identity against the registry of injected exceptions."""
 import contextlib
@@ -113,12 +114,26 @@ CM_KINDS = {
 }
 
 
-def mixin(tok, sid, delay):
+class HostStub:
+    """the lab-host a ConsoleConnector is constructed with: `clone()` gives an instrumented context"""
+
+    def __init__(self, style, sid):
+        self.style, self.sid, self.rec = style, sid, None
+
+    def clone(self):
+        return make_cm(self.style, self.rec, self.sid, self)
+
+
+def mixin(tok, sid, delay, console):
     """one base class for the token `tok` at position `sid` of the composition"""
     kind, style = tok[0], tok[1:]
     if kind in CM_KINDS and style in ("g", "k"):
         base, meth = CM_KINDS[kind]
         return type(f"Mix{kind.upper()}{sid}", (base,), {meth: lambda self: make_cm(style, self._life, sid)})
+    if kind == "c" and style in ("g", "k") and console:
+        # the REAL ConsoleConnector._connect: `with self.host.clone() as cloned, self.connect(cloned) as ch`
+        return type(f"Console{sid}", (connector.ConsoleConnector,), {
+            "connect": lambda self, mach: make_cm(style, self._life, sid, self._life_ch)})
     if kind == "c" and style in ("g", "k"):
         def _connect(self):
             return make_cm(style, self._life, sid, self._life_ch)
@@ -146,17 +161,24 @@ def mixin(tok, sid, delay):
 def compose(bases_tok, delay):
     toks = [] if bases_tok == "." else bases_tok.split(",")
     bases, ns = [], {}
+    hosts = [(sid, tok) for sid, tok in enumerate(toks) if tok[0] == "l"]
+    if len(hosts) > 1 or any(t[1:] not in ("g", "k") for _, t in hosts):
+        raise HarnessError("at most one lab-host token lg/lk")
     for sid, tok in enumerate(toks):
+        if tok[0] == "l":
+            continue
         if tok == "h":
             if "init" in ns:
                 raise HarnessError("two hooks")
             ns["init"] = (lambda s: lambda self: self._life.ev(f"h{s}"))(sid)
         else:
-            bases.append(mixin(tok, sid, delay))
+            bases.append(mixin(tok, sid, delay, bool(hosts)))
     kinds = [t[0] for t in toks]
     if kinds.count("c") != 1 or kinds.count("s") != 1 or kinds.count("w") > 1:
         raise HarnessError("composition needs exactly one connector and shell, at most one PowerControl")
-    return type("LifeMachine", tuple(bases), ns)
+    cls = type("LifeMachine", tuple(bases), ns)
+    host = HostStub(hosts[0][1][1:], hosts[0][0]) if hosts else None
+    return cls, host
 
 
 # ---- body interpreter --------------------------------------------------------------------
@@ -218,11 +240,15 @@ def run_case(line):
     if len(toks) < 2:
         raise HarnessError("case needs <bases> <delay>")
     delay = int(toks[1])
-    cls = compose(toks[0], delay)
+    cls, host = compose(toks[0], delay)
     rec = Recorder()
     bases = [] if toks[0] == "." else toks[0].split(",")
     rec.power_sid = bases.index("w") if "w" in bases else None
-    m = cls()
+    if host is not None:
+        host.rec = rec
+        m = cls(host)
+    else:
+        m = cls()
     m._life = rec
     m._life_ch = channel.Channel(NullIO())
     real_sleep = time.sleep
